@@ -437,6 +437,69 @@ def run_memo(case):
     S.count("memo_histories")
 
 
+# ---------------------------------------------------------------------------------------
+# long_history: a diatonic question gets the same answer as the first question of a process and after thousands of others
+# ---------------------------------------------------------------------------------------
+LH_QUESTIONS = [("third", "F#", "Cb"), ("fifth", "Bbb", "b"), ("second", "C", "C"), ("seventh", "E", "f#"), ("fourth", "B", "F"),
+                ("sixth", "G#", "E"), ("unison", "Db", "Ab"), ("third", "A", "a"), ("fifth", "C##", "d#"), ("second", "Fb", "Gb"),
+                ("third", "H", "C"), ("fifth", "C", "H")]
+_LH_BASE = {}
+
+
+def _lh_do(q):
+    import mingus.core.intervals as _iv
+    try:
+        return ["ok", engine.with_step_budget(getattr(_iv, q[0]), (q[1], q[2]), budget=20000)]
+    except engine.StepBudgetExceeded:
+        return ["no result within the step horizon"]
+    except Exception as e:                              # noqa
+        return ["raised", type(e).__name__]
+
+
+def _lh_cold():
+    import importlib
+    import mingus.core.intervals as _iv
+    importlib.reload(K)
+    importlib.reload(_iv)
+
+
+def run_long_history(case):
+    """case = "forward" | "reversed": the questions, then every diatonic step on every letter (natural, sharp, flat) in all 30
+    keys, then the questions again -- in freshly loaded keys / intervals modules; also against each question's answer as the
+    very first question of a fresh module."""
+    import mingus.core.intervals as _iv
+    S = engine.S
+    qs = list(LH_QUESTIONS) if case == "forward" else list(reversed(LH_QUESTIONS))
+    for q in qs:
+        if q not in _LH_BASE:
+            _lh_cold()
+            _LH_BASE[q] = _lh_do(q)
+    _lh_cold()
+    first = [_lh_do(q) for q in qs]
+    work = 0
+    for key in P.KEYS30:
+        for L in "CDEFGAB":
+            for fn in ("unison", "second", "third", "fourth", "fifth", "sixth", "seventh"):
+                for acc in ("", "#", "b"):
+                    try:
+                        getattr(_iv, fn)(L + acc, key)
+                    except Exception:                   # noqa -- judged by the diatonic clause
+                        pass
+                    work += 1
+    again = [_lh_do(q) for q in qs]
+    S.trans(work + 2 * len(qs))
+    for q, a, b in zip(qs, first, again):
+        if a != b:
+            S.problem("intervals.%s(%r, %r) asked again after %d other diatonic steps" % (q[0], q[1], q[2], work), a, b)
+            break
+    for q, a in zip(qs, first):
+        if a != _LH_BASE[q]:
+            S.problem("intervals.%s(%r, %r) within the first %d questions of a fresh process (%s order)" % (q[0], q[1], q[2], len(qs), case), _LH_BASE[q], a)
+            break
+    S.count("long_histories")
+    S.outcome(("long_history", case, work))
+
+
 CLAUSES = {
     "key_notes": run_key_notes,
     "lookup": run_lookup,
@@ -446,6 +509,7 @@ CLAUSES = {
     "diatonic": run_diatonic,
     "circle": run_circle,
     "memo": run_memo,
+    "long_history": run_long_history,
 }
 
 
@@ -461,6 +525,8 @@ def explore(ctx):
         sigs = sorted(set(sigs))
         ctx.bound("signature_numbers", "-1100..1100, 65516..65556 and +-10**6, +-2**31, 2**32-+7")
         ctx.serial("lookup", sigs)
+    if ctx.want("long_history"):
+        ctx.product("long_history", ["forward", "reversed"], lambda o: [o])
     if ctx.want("relative"):
         ctx.serial("relative", keys30)
     if ctx.want("key_object"):
